@@ -98,6 +98,18 @@ def materialise(man, units, tag, rnd_dir):
     inb = {n: round(0.05 * len(u["m"]) + 0.04 * min(u["m"]), 2) for n, u in zip(names, units)}
     datasets.write_map(os.path.join(d, "inbreeding.txt"), sorted(inb.items()))
     if true_pool:
+        # the file may list the assignment pool by pool or interleaved (e.g. written sample by sample): same pools.
+        # Interleave round-robin for every second configuration; pool order (first appearance) and the member order
+        # inside each pool are unchanged, so the expected columns are the same.
+        if sum(ord(c) for c in tag) % 2:
+            by_pool = {}
+            for s, name in pool_lines:
+                by_pool.setdefault(name, []).append((s, name))
+            rr, k = [], 0
+            while any(len(v) > k for v in by_pool.values()):
+                rr.extend(v[k] for v in by_pool.values() if len(v) > k)
+                k += 1
+            pool_lines = rr
         argv += ["--sample-pool", datasets.write_map(os.path.join(d, "pools.txt"), pool_lines)]
     return argv, names, ploidy, os.path.join(d, "inbreeding.txt")
 
